@@ -87,6 +87,16 @@ for mn in loaded:
                     if pv is not None:
                         attrs[an] = pv[:400]
             ns[name].append(attrs)
+        elif not isinstance(obj, IMMUTABLE) and not isinstance(obj, type(sys)) and not callable(obj) and hasattr(obj, "__dict__"):
+            # a public name bound to an INSTANCE (a logger, a table object): its public plain-data state is part of
+            # "the same object" - e.g. a module's logger is enabled and at the same level whatever was imported first
+            attrs = {}
+            for an, av in sorted(vars(obj).items()):
+                if not an.startswith("_"):
+                    pv = plain(av)
+                    if pv is not None:
+                        attrs[an] = pv[:400]
+            ns[name].append(attrs)
         if not isinstance(obj, IMMUTABLE):
             by_id.setdefault(id(obj), []).append(mn + ":" + name)
     table[mn] = ns
